@@ -257,6 +257,7 @@ func (c *FnCtx) callFunc(st *State, fn *types.Func, sig *types.Signature, recv *
 		c.assume(st, f)
 	}
 	c.bumpAlloc(st)
+	c.refsBelow(st, v, st.alloc)
 	return v
 }
 
@@ -444,6 +445,9 @@ func (c *FnCtx) callByContract(st *State, fs *FuncSpec, sig *types.Signature, re
 	if len(ks) > 0 || fs.Allocates {
 		c.bumpAlloc(st)
 	}
+	for _, r := range results {
+		c.refsBelow(st, r, st.alloc)
+	}
 	post := &SpecScope{c: c, cur: st, old: old, vars: map[string]Val{}, oldVars: vars}
 	for k, v := range vars {
 		post.vars[k] = v
@@ -451,6 +455,16 @@ func (c *FnCtx) callByContract(st *State, fs *FuncSpec, sig *types.Signature, re
 	for i, n := range fs.Results {
 		if i < len(results) {
 			post.vars[n] = results[i]
+		}
+	}
+	if len(fs.GhostFns) > 0 {
+		post.ghostOverride = map[string]string{}
+		for _, g := range fs.GhostFns {
+			c.nfresh++
+			sym := fmt.Sprintf("G_%s_%s_%d", smtName(fs.keyTail()), g.Name, c.nfresh)
+			c.declare(sym, []string{"Int"}, "Int")
+			post.ghostOverride[g.Name] = sym
+			c.ghostFns[fs.keyTail()+"_"+g.Name] = sym
 		}
 	}
 	for _, e := range fs.Ensures {
@@ -486,6 +500,9 @@ func (c *FnCtx) frameFormula(old, cur *State, bound string, except []Val) string
 	sort.Strings(ks)
 	var parts []string
 	for _, k := range ks {
+		if strings.HasPrefix(k, "G_") {
+			continue
+		}
 		srt := c.heapSort(k)
 		one := strings.HasPrefix(k, "P_")
 		nargs := 2
